@@ -148,6 +148,12 @@ class Check:
         self.seed = seed
         self.t0 = time.time()
         self.mirs = mir_paths(which)
+        # the replay binary (E4) is rebuilt from /repo's current tree with the verif hooks enabled
+        from props import replay as _replay
+        err = _replay.build()
+        self.replay_build_error = err
+        if err:
+            print("MACHINERY-FAULT replay binary does not build: " + err[-1500:])
         self.results = []
         self.notes = []
         self.extra_evidence = {}
@@ -257,6 +263,8 @@ class Check:
             print("MODEL-DIVERGENCE property=%s %s: counterexample did not reproduce on the real engine: %s" % (self.prop, role, json.dumps(vs[0].replay, default=str)[:600]))
         if diverged:
             faults = faults + [("replay", "model divergence on %d role(s)" % len(diverged))]
+        if self.replay_build_error:
+            faults = faults + [("replay-build", self.replay_build_error[-300:])]
         if faults:
             for n, f in faults[:5]:
                 print("MACHINERY-FAULT scenario=%s %s" % (n, f[:1200]))
